@@ -6,8 +6,19 @@ What is taken from the source on every run:
     POISON_SIZE without and with -fsanitize=address, MAX_SOURCE_LOCATIONS
                                     compile-and-print of a program that #includes arena.c
                                     (cc for the normal build, clang -fsanitize=address for the ASan build)
-  * shrink_validated              position of the arena_scope_validate call of arena_realloc_fast relative to its
-                                    "if (new_size <= old_size) { ... return 1; }" block (the model's switch c_sv)
+  * shrink_validated, grow_validated
+                                    position of the arena_scope_validate call(s) of arena_realloc_fast relative to its
+                                    "if (new_size <= old_size) { ... return 1; }" block: shrink_validated (c_sv) = a call
+                                    before the block or inside it before the return; grow_validated (c_gv) = a call at
+                                    the top level of the function before the block, or between its end and the
+                                    "old_addr.s8 = ptr;" of the last-allocated-object test (fixes 4eb1227, 08bdded)
+  * arena-backed containers         the realloc call sites of libks/buffer.c (buffer_reserve) and libks/vector.c
+                                    (vector_reserve1): old-size and new-size expressions, initial capacity, factor and
+                                    overflow guard of the doubling loop; sizeof(struct vector) by compile-and-print of a
+                                    program that #includes vector.c; the statements around them, the callbacks of
+                                    arena-buffer.c / arena-vector.c (ptr, old, new passed unchanged to arena_realloc)
+                                    and the creation paths (buffer_alloc_impl, vector_init_impl, arena_vector_init) are
+                                    pinned as text.  ArenaClientDefs.buf_reserve / vec_reserve are defined from these.
   * the three expressions the model transcribes literally must still be there
     (rounding in align_address, clipping in arena_push, rewinding in arena_scope_leave);
     the translator raises when one of them no longer matches.
@@ -42,11 +53,12 @@ def squash(text):
     return re.sub(r'\s+', ' ', text)
 
 
-def shrink_validated(src):
-    """Does arena_realloc_fast call arena_scope_validate on the path that returns a shrunk block?
-    (False for the source as it is: 'Always allow existing allocations to shrink' returns first;
-    True with findings/C19_outer_shrink.diff.)  Raises when the function no longer has the shape
-    the model transcribes: one 'if (new_size <= old_size) { ... return 1; }' block."""
+def validate_sites(src):
+    """(shrink_validated, grow_validated): where arena_realloc_fast calls arena_scope_validate.
+    Historical shapes: none (before 08bdded) -> (False, False); after the shrink block (08bdded) -> (False, True);
+    before it (4eb1227) -> (True, True); only inside the shrink block -> (True, False).
+    Raises when the function no longer has the shape the model transcribes: one
+    'if (new_size <= old_size) { ... return 1; }' block followed by the last-allocated-object test."""
     m = re.search(r'\narena_realloc_fast\(struct arena_scope \*s, char \*ptr, size_t old_size,\s*size_t new_size\)\s*\{(.*?)\n\}',
                   src, re.S)
     if not m:
@@ -59,13 +71,158 @@ def shrink_validated(src):
     start = ifs[0]
     end = flat.find('}', start)
     block = flat[start:end]
+    if block.count('{') != 1:
+        raise RuntimeError('t_arena: the shrinking block of arena_realloc_fast has nested braces')
     if 'return 1;' not in block:
         raise RuntimeError('t_arena: the shrinking block of arena_realloc_fast no longer returns 1')
+    anchor = flat.find('old_addr.s8 = ptr;', end)
+    if anchor < 0:
+        raise RuntimeError('t_arena: "old_addr.s8 = ptr;" (last-allocated-object test) not found after the shrinking block')
     call = r'arena_scope_validate\(a, s, new_size\);'
-    before = re.search(call, flat[:start]) is not None
+
+    def top_level(pos):
+        return flat[:pos].count('{') == flat[:pos].count('}')
+    before = [x.start() for x in re.finditer(call, flat[:start]) if top_level(x.start())]
     ret = block.find('return 1;')
     inside = re.search(call, block[:ret]) is not None
-    return before or inside
+    between = [x.start() for x in re.finditer(call, flat[end:anchor]) if top_level(end + x.start())]
+    others = [x.start() for x in re.finditer(r'arena_scope_validate\(', flat)]
+    known = len(before) + (1 if inside else 0) + len(between)
+    if len(others) != known:
+        raise RuntimeError('t_arena: arena_realloc_fast calls arena_scope_validate at a place the translator does not know')
+    return (bool(before) or inside), (bool(before) or bool(between))
+
+
+def shrink_validated(src):
+    return validate_sites(src)[0]
+
+
+def grow_validated(src):
+    return validate_sites(src)[1]
+
+
+# ---- arena-backed containers: buffer.c / vector.c / arena-buffer.c / arena-vector.c ---------------------------
+def func_body(src, name, what):
+    m = re.search(r'\n%s\([^)]*\)\s*\{(.*?)\n\}' % re.escape(name), src, re.S)
+    if not m:
+        raise RuntimeError('t_arena: definition of %s not found in %s' % (name, what))
+    return squash(re.sub(r'/\*.*?\*/', ' ', m.group(1), flags=re.S))
+
+
+def size_expr(text, names, what):
+    """a C size expression over the given lvalues, + * ( ) and decimal literals -> Gallina over N; anything else raises"""
+    toks = re.findall(r'sizeof\(\*?[a-z]+\)|[A-Za-z_][A-Za-z_0-9]*(?:(?:->|\.)[A-Za-z_][A-Za-z_0-9]*)*|\d+|[-+*/()%]|\S', text)
+    out = []
+    for t in toks:
+        if t in names:
+            out.append(names[t])
+        elif t in '+*()' or t.isdigit():
+            out.append(t)
+        else:
+            raise RuntimeError('t_arena: %s: token %r in %r is outside the supported size expressions' % (what, t, text))
+    return ' '.join(out)
+
+
+def need(flat, pat, what):
+    m = re.search(pat, flat)
+    if not m:
+        raise RuntimeError('t_arena: %s no longer has the transcribed form' % what)
+    return m
+
+
+VEC_PROBE = r'''
+#include <stdio.h>
+#include "libks/vector.c"
+int main(void) { printf("sizeof_vector=%zu\n", sizeof(struct vector)); return 0; }
+'''
+
+
+def clients(repo):
+    rd = lambda f: open(os.path.join(repo, 'libks', f)).read()
+    out = {}
+    # buffer.c: buffer_reserve
+    b = func_body(rd('buffer.c'), 'buffer_reserve', 'buffer.c')
+    need(b, r'if \(len > ULONG_MAX - bf->bf_len\) goto overflow; newlen = bf->bf_len \+ len; '
+            r'if \(bf->bf_siz > 0 && bf->bf_siz >= newlen\) return 0;', 'buffer_reserve (overflow and room tests)')
+    m = need(b, r'newsiz = bf->bf_siz \? bf->bf_siz : (\d+); while \(newsiz < newlen\) \{ '
+                r'if \(newsiz > ULONG_MAX / (\d+)\) goto overflow; newsiz \*= (\d+); \}', 'buffer_reserve (doubling loop)')
+    out['ar_buf_init_cap'], out['ar_buf_dbl_guard'], out['ar_buf_dbl_factor'] = (int(x) for x in m.groups())
+    m = need(b, r'ptr = bf->bf_callbacks\.realloc\(bf->bf_ptr, ([^,]+), ([^,]+), bf->bf_callbacks\.arg\); '
+                r'if \(ptr == NULL\) return 1; bf->bf_ptr = ptr; bf->bf_siz = newsiz; return 0;',
+             'buffer_reserve (realloc callback call and bookkeeping)')
+    out['ar_buf_old_src'], out['ar_buf_new_src'] = m.group(1).strip(), m.group(2).strip()
+    out['ar_buf_old'] = size_expr(m.group(1), {'bf->bf_siz': 'siz', 'bf->bf_len': 'len'}, 'buffer.c realloc old size')
+    out['ar_buf_new'] = size_expr(m.group(2), {'newsiz': 'newsiz'}, 'buffer.c realloc new size')
+    ba = func_body(rd('buffer.c'), 'buffer_alloc_impl', 'buffer.c')
+    need(ba, r'bf = callbacks->alloc\(sizeof\(\*bf\), callbacks->arg\); if \(bf == NULL\) return NULL; '
+             r'memset\(bf, 0, sizeof\(\*bf\)\); bf->bf_callbacks = \*callbacks; if \(buffer_reserve\(bf, init_size\)\)',
+         'buffer_alloc_impl')
+    need(func_body(rd('buffer.c'), 'buffer_puts', 'buffer.c'),
+         r'if \(str == NULL \|\| len == 0\) return 0; if \(buffer_reserve\(bf, len\)\) return 1; '
+         r'memcpy\(&bf->bf_ptr\[bf->bf_len\], str, len\); bf->bf_len \+= len; return 0;', 'buffer_puts')
+    # vector.c: vector_reserve1
+    vsrc = rd('vector.c')
+    v = func_body(vsrc, 'vector_reserve1', 'vector.c')
+    need(v, r'if \(vc->p\.len > ULONG_MAX - len\) goto overflow; if \(vc->p\.len \+ len <= vc->vc_siz\) return VECTOR_SUCCESS;',
+         'vector_reserve1 (overflow and room tests)')
+    m = need(v, r'oldlen = ([^;]+);', 'vector_reserve1 (oldlen)')
+    out['ar_vec_old_src'] = m.group(1).strip()
+    out['ar_vec_old'] = size_expr(m.group(1), {'sizeof(*vc)': 'hdr', 'vc->p.len': 'len', 'vc->vc_stride': 'stride',
+                                               'vc->vc_siz': 'siz'}, 'vector.c oldlen')
+    m = need(v, r'newsiz = vc->vc_siz \? vc->vc_siz : (\d+); while \(newsiz < vc->p\.len \+ len\) \{ '
+                r'if \(newsiz > ULONG_MAX / (\d+)\) goto overflow; newsiz \*= (\d+); \}', 'vector_reserve1 (doubling loop)')
+    out['ar_vec_init_cap'], out['ar_vec_dbl_guard'], out['ar_vec_dbl_factor'] = (int(x) for x in m.groups())
+    need(v, r'totlen = newsiz; if \(totlen > ULONG_MAX / vc->vc_stride\) goto overflow; totlen \*= vc->vc_stride; '
+            r'if \(totlen > ULONG_MAX - sizeof\(\*vc\)\) goto overflow; totlen \+= sizeof\(\*vc\);',
+         'vector_reserve1 (total length)')
+    out['ar_vec_new'] = 'newsiz * stride + hdr'
+    need(v, r'newvc = vc->vc_callbacks\.realloc\(vc, oldlen, totlen, vc->vc_callbacks\.arg\); '
+            r'if \(newvc == NULL\) return VECTOR_ERROR; newvc->vc_siz = newsiz; \*vv = newvc; return VECTOR_REALLOCATED;',
+         'vector_reserve1 (realloc callback call and bookkeeping)')
+    need(func_body(vsrc, 'vector_init_impl', 'vector.c'),
+         r'vc = callbacks->calloc\(1, sizeof\(\*vc\), callbacks->arg\); if \(vc == NULL\) return 1; '
+         r'vc->vc_callbacks = \*callbacks; vc->vc_stride = stride; \*vv = &vc\[1\]; return 0;', 'vector_init_impl')
+    va = func_body(vsrc, 'vector_alloc', 'vector.c')
+    need(va, r'switch \(vector_reserve1\(&vc, 1\)\)', 'vector_alloc (reserve of one element)')
+    need(va, r'return vc->p\.len\+\+;', 'vector_alloc (length increment)')
+    need(func_body(vsrc, 'vector_reserve', 'vector.c'), r'switch \(vector_reserve1\(&vc, n\)\)', 'vector_reserve')
+    # the arena callbacks hand (ptr, old, new) to arena_realloc unchanged
+    ab = rd('arena-buffer.c')
+    need(func_body(ab, 'callback_realloc', 'arena-buffer.c'),
+         r'^ ?struct arena_scope \*s = arg; return arena_realloc\(s, ptr, old_size, new_size\); ?$', 'arena-buffer.c callback_realloc')
+    need(func_body(ab, 'callback_alloc', 'arena-buffer.c'),
+         r'^ ?struct arena_scope \*s = arg; return arena_malloc\(s, size\); ?$', 'arena-buffer.c callback_alloc')
+    if not re.search(r'callback_realloc\(void \*ptr, size_t old_size, size_t new_size, void \*arg\)', squash(ab)):
+        raise RuntimeError('t_arena: arena-buffer.c callback_realloc no longer takes (ptr, old_size, new_size, arg)')
+    av = rd('arena-vector.c')
+    need(func_body(av, 'callback_realloc', 'arena-vector.c'),
+         r'^ ?struct arena_scope \*s = arg; return arena_realloc\(s, ptr, oldsize, newsize\); ?$', 'arena-vector.c callback_realloc')
+    need(func_body(av, 'callback_calloc', 'arena-vector.c'),
+         r'^ ?struct arena_scope \*s = arg; return arena_calloc\(s, nmemb, size\); ?$', 'arena-vector.c callback_calloc')
+    if not re.search(r'callback_realloc\(void \*ptr, size_t oldsize, size_t newsize, void \*arg\)', squash(av)):
+        raise RuntimeError('t_arena: arena-vector.c callback_realloc no longer takes (ptr, oldsize, newsize, arg)')
+    need(func_body(av, 'arena_vector_init', 'arena-vector.c'),
+         r'\.realloc = callback_realloc, .*\}\); if \(n > 0\) vector_reserve\(vv, n\);', 'arena_vector_init')
+    out['ar_vec_hdr'] = sizeof_vector(repo)
+    return out
+
+
+def sizeof_vector(repo):
+    """sizeof(struct vector), printed by a program that #includes libks/vector.c"""
+    d = tempfile.mkdtemp(prefix='t_arena.')
+    try:
+        open(os.path.join(d, 'v.c'), 'w').write(VEC_PROBE)
+        cmd = ['cc', '-w', '-I', repo, os.path.join(d, 'v.c'), os.path.join(repo, 'libks', 'arithmetic.c'), '-o', os.path.join(d, 'v')]
+        r = subprocess.run(cmd, stdout=subprocess.PIPE, stderr=subprocess.STDOUT, text=True, timeout=120)
+        if r.returncode != 0:
+            raise RuntimeError('t_arena: vector probe does not compile: ' + r.stdout[-800:])
+        r = subprocess.run([os.path.join(d, 'v')], stdout=subprocess.PIPE, stderr=subprocess.STDOUT, text=True, timeout=60)
+        m = re.match(r'^sizeof_vector=(\d+)$', r.stdout.strip())
+        if r.returncode != 0 or not m:
+            raise RuntimeError('t_arena: vector probe failed: ' + r.stdout[-400:])
+        return int(m.group(1))
+    finally:
+        shutil.rmtree(d, ignore_errors=True)
 
 
 def probe(repo, cc, flags):
@@ -118,21 +275,27 @@ def constants(repo, strict=True):
     out = dict(normal)
     out['frame_mult'] = mult
     try:
-        out['shrink_validated'] = 1 if shrink_validated(src) else 0
+        sv, gv = validate_sites(src)
+        out['shrink_validated'], out['grow_validated'] = int(sv), int(gv)
     except RuntimeError:
         if strict:
             raise
         # unknown shape: the correspondence runs against the model of the repaired source (the property's reading);
         # generate() (strict) has already reported the broken tie
-        out['shrink_validated'] = 1
+        out['shrink_validated'], out['grow_validated'] = 1, 1
     out['poison_normal'] = normal['poison']
     out['poison_asan'] = asan['poison']
     del out['poison']
     return out
 
 
+def nocomment(text):
+    return text.replace('(*', '( *').replace('*)', '* )')
+
+
 def generate(repo):
     c = constants(repo)
+    k = clients(repo)
     lines = ['(* Gen_Arena.v - generated by harness/t_arena.py from libks/arena.c on every check; do not edit. *)',
              'From Coq Require Import NArith.',
              'Local Open Scope N_scope.',
@@ -150,6 +313,27 @@ def generate(repo):
              'Definition max_source_locations : N := %d.' % c['max_source_locations'],
              '(* arena_realloc_fast calls arena_scope_validate before returning a shrunk block *)',
              'Definition shrink_validated : bool := %s.' % ('true' if c['shrink_validated'] else 'false'),
+             '(* arena_realloc_fast calls arena_scope_validate before growing a block in place *)',
+             'Definition grow_validated : bool := %s.' % ('true' if c['grow_validated'] else 'false'),
+             '',
+             '(* ---- arena-backed containers: what buffer.c / vector.c pass to their realloc callback, which',
+             '   arena-buffer.c / arena-vector.c hand unchanged to arena_realloc(s, ptr, old, new) ---- *)',
+             '(* buffer_reserve: newsiz = bf->bf_siz ? bf->bf_siz : CAP; while (newsiz < newlen) { if (newsiz > ULONG_MAX / GUARD) goto overflow; newsiz *= FACTOR; } *)',
+             'Definition ar_buf_init_cap : N := %d.' % k['ar_buf_init_cap'],
+             'Definition ar_buf_dbl_guard : N := %d.' % k['ar_buf_dbl_guard'],
+             'Definition ar_buf_dbl_factor : N := %d.' % k['ar_buf_dbl_factor'],
+             '(* bf->bf_callbacks.realloc(bf->bf_ptr, %s, %s, bf->bf_callbacks.arg) *)' % (nocomment(k['ar_buf_old_src']), nocomment(k['ar_buf_new_src'])),
+             'Definition ar_buf_old (siz len : N) : N := %s.' % k['ar_buf_old'],
+             'Definition ar_buf_new (newsiz : N) : N := %s.' % k['ar_buf_new'],
+             '(* sizeof(struct vector), printed by a program that includes vector.c *)',
+             'Definition ar_vec_hdr : N := %d.' % k['ar_vec_hdr'],
+             'Definition ar_vec_init_cap : N := %d.' % k['ar_vec_init_cap'],
+             'Definition ar_vec_dbl_guard : N := %d.' % k['ar_vec_dbl_guard'],
+             'Definition ar_vec_dbl_factor : N := %d.' % k['ar_vec_dbl_factor'],
+             '(* oldlen = %s *)' % nocomment(k['ar_vec_old_src']),
+             'Definition ar_vec_old (hdr siz len stride : N) : N := %s.' % k['ar_vec_old'],
+             '(* totlen = newsiz; totlen *= vc->vc_stride; totlen += sizeof( *vc) *)',
+             'Definition ar_vec_new (hdr newsiz stride : N) : N := %s.' % k['ar_vec_new'],
              '']
     return {'Gen_Arena.v': '\n'.join(lines)}
 
